@@ -43,6 +43,7 @@ type nicCtx struct {
 }
 
 type sender struct {
+	fill  string // "ee" (default) | "zero" | "prev": see call
 	ctx   map[string]*nicCtx
 	tmp   string
 	nfile int
@@ -320,12 +321,14 @@ func (s *sender) purgeScenario(c *nicCtx, e *vh.WireEnv, call jmap) outcome {
 // dirtyPool fills the buffers the send paths are about to take from packet.EtherBufferPool with a
 // fixed pattern: a field the encoder forgets to write then shows up deterministically (0xEE)
 // instead of depending on what the previous frame left behind.
-func dirtyPool() {
+func dirtyPool() { fillPool(0xEE) }
+
+func fillPool(pattern byte) {
 	var bufs [6]*[packet.EthMaxSize]byte
 	for i := range bufs {
 		bufs[i] = packet.EtherBufferPool.Get().(*[packet.EthMaxSize]byte)
 		for j := range bufs[i] {
-			bufs[i][j] = 0xEE
+			bufs[i][j] = pattern
 		}
 	}
 	for i := range bufs {
@@ -348,7 +351,13 @@ func (s *sender) call(c *nicCtx, e *vh.WireEnv, call jmap, rng *rand.Rand) (out 
 	var err error
 	sess := c.sess
 	c.conn.Take()
-	dirtyPool()
+	switch s.fill { // content of the pooled buffers the call is about to take
+	case "zero":
+		fillPool(0)
+	case "prev": // whatever the previous frame left there
+	default:
+		dirtyPool()
+	}
 	switch f {
 	case "PurgeProbe":
 		return s.purgeScenario(c, e, call)
@@ -446,6 +455,53 @@ func (s *sender) call(c *nicCtx, e *vh.WireEnv, call jmap, rng *rand.Rand) (out 
 	return out
 }
 
+// primaryFlat is the abstract form of the frame a call is about (nil if there is none).
+func primaryFlat(out outcome) map[string]string {
+	for _, b := range out.frames {
+		a, _ := vh.RefDecode(b)
+		if a == nil {
+			continue
+		}
+		if out.primary == nil || out.primary(a) {
+			return a.Flatten()
+		}
+	}
+	return nil
+}
+
+func flatKeys(a, b map[string]string) []string {
+	seen := map[string]bool{}
+	var out []string
+	for k := range a {
+		seen[k] = true
+		out = append(out, k)
+	}
+	for k := range b {
+		if !seen[k] {
+			out = append(out, k)
+		}
+	}
+	sortStrings(out)
+	return out
+}
+
+// volatileField: values that legitimately differ between two calls with the same arguments (process-wide counters,
+// crypto/rand transaction ids)
+func volatileField(fn, k string) bool {
+	if k == "f.codes" { // options not named in the requested order follow Go's map iteration order; f.codeset is compared
+		return true
+	}
+	switch fn {
+	case "Ping", "Ping6", "dns.SendNBNSQuery", "dns.SendNBNSNodeStatus":
+		return k == "f.id"
+	case "dhcp4.ForgedRelease":
+		return k == "f.xid"
+	case "PurgeProbe":
+		return k == "f.id" // the IPv6 echo probe takes its identifier from the clock
+	}
+	return false
+}
+
 func frameFields(m jmap) map[string]interface{} {
 	out := map[string]interface{}{}
 	for k, v := range m {
@@ -515,18 +571,48 @@ func (s *sender) runVector(v jmap, inst int, seed int64, r *result) {
 			x.sess.Parse(vh.FrameIP4UDP(x.nic.RouterMAC, x.nic.HostMAC, x.nic.RouterIP, x.nic.HostIP, 53, 40000, []byte("hb")))
 		}
 	}
-	var out outcome
-	func() {
+	guarded := func(e *vh.WireEnv, call jmap, rng *rand.Rand) (out outcome) {
 		defer func() {
 			if x := recover(); x != nil {
 				out.err = "panic: " + fmt.Sprint(x)
 			}
 		}()
-		out = s.call(c, e, call, rng)
-	}()
+		return s.call(c, e, call, rng)
+	}
+	// reference pass: the same call with the same concrete arguments on zero-filled pooled buffers
+	s.fill = "zero"
+	rngA := rand.New(rand.NewSource(seed))
+	eA := vh.NewWireEnv(c.nic, rngA)
+	base := guarded(eA, call, rngA)
+	baseFlat := primaryFlat(base)
+	// judged pass: after the previous send of a pair (if any), on buffers filled with 0xEE or left as they are
+	s.fill = "ee"
+	if prev := jobj(v, "prev"); len(prev) > 0 {
+		guarded(e, prev, rand.New(rand.NewSource(seed+1)))
+		if jstr(v, "dirty") == "prev" {
+			s.fill = "prev"
+		}
+	}
+	out := guarded(e, call, rng)
+	s.fill = "ee"
 	if out.skipped != "" {
 		r.Skipped = out.skipped
 		return
+	}
+	// the emitted frame is a function of the parameters only, not of the buffer's previous content
+	if judged := primaryFlat(out); baseFlat != nil && judged != nil && jbool(v, "clean") { // invalid arguments: outside the statement
+		for _, k := range flatKeys(baseFlat, judged) {
+			if volatileField(r.Func, k) || baseFlat[k] == judged[k] {
+				continue
+			}
+			how := "pooled buffers pre-filled with 0xEE"
+			if s := jstr(jobj(v, "prev"), "f"); s != "" {
+				how = "sent after " + s + " (" + jstr(v, "dirty") + ")"
+			}
+			r.add("prop", "C07:pool:"+r.Func+":"+k, "%s: %s = %q on zero-filled pooled buffers but %q when %s: the frame depends on the previous content of the buffer",
+				r.Func, k, baseFlat[k], judged[k], how)
+			break
+		}
 	}
 	if out.directed != "" {
 		r.add("note", "directed."+out.directed, "%s", out.directed)
